@@ -577,6 +577,10 @@ class EngineBase:
             r.st.trace.append(("yield", r.val))
             if self.spec is not None and hasattr(self.spec, "at_yield"):
                 self.spec.at_yield(self, r.st, r.val)
+            if self.spec is not None and getattr(self.spec, "stop_at_yield", False):
+                # contract about the entry half only (declared in the contract and in the evidence): the path ends here
+                self.yield_stops = getattr(self, "yield_stops", 0) + 1
+                continue
             out.extend(self.suspend(r.st, r.val, "yield"))
         return out
 
